@@ -227,8 +227,11 @@ func (s *Scheduler) HandleHeadEvent(ctx context.Context, slot eth2p0.Slot, block
 		return
 	}
 
-	// Clone defSet to prevent race conditions when it's modified or trimmed
+	// Clone defSet to prevent race conditions when it's modified or trimmed.
+	// The clone itself iterates the stored map, which resolveDuties may be adding to: hold the lock.
+	s.dutiesMutex.RLock()
 	clonedDefSet, err := defSet.Clone()
+	s.dutiesMutex.RUnlock()
 	if err != nil {
 		log.Error(ctx, "Failed to clone duty definition set for early fetch", err)
 		return
